@@ -744,7 +744,7 @@ func genCliCase(r *rand.Rand) *CliCase {
 // ---------------------------------------------------------------------------
 
 func TestClientChild(t *testing.T) {
-	childMain(t, func(idx int, raw json.RawMessage) any {
+	childMain(t, func(idx int, raw json.RawMessage, _ func(any)) any {
 		var sc CliCase
 		if err := json.Unmarshal(raw, &sc); err != nil {
 			t.Fatal(err)
@@ -782,10 +782,15 @@ func TestClient(t *testing.T) {
 		}
 	}
 	workers := 12
-	results := runChildren(t, e, "TestClientChild", cases, len(cases), workers, func(idx int, output string) any {
+	results := runChildren(t, e, "TestClientChild", cases, len(cases), workers, func(idx int, _ json.RawMessage, output string, stalled bool) any {
 		ev := cliBaseEv(cases[idx])
-		ev["crashed"] = true
-		ev["panic"] = crashLine(output)
+		if stalled {
+			ev["hang"], ev["deadlock"] = true, true
+			ev["panic"] = ""
+		} else {
+			ev["crashed"] = true
+			ev["panic"] = crashLine(output)
+		}
 		return []sim.Ev{{"e": "Reset", "ts": 0}, ev, {"e": "End"}}
 	})
 	for i, raw := range results {
